@@ -25,6 +25,7 @@ func init() {
 
 func runC16(c *Ctx) {
 	p := c.P
+	defer c.ImportRules("C11", "C11.13")
 	rwT := types.NewPointer(p.MustNamed("responseWriter"))
 	rwFlushMsg := p.MethodOf(rwT, "flushMessage")
 	if rwFlushMsg == nil {
